@@ -207,7 +207,7 @@ class HPAngle(object):
         :param hp_angle: float HP angle
         """
         self.hp_angle = float(hp_angle)
-        hp_dec_str = f'{self.hp_angle:.13f}'.split('.')[1]
+        hp_dec_str = _hp_decimals(self.hp_angle)[1]
         if int(hp_dec_str[0]) > 5:
             raise ValueError(f'Invalid HP Notation: 1st decimal place greater '
                              f'than 5: {self.hp_angle}')
@@ -1041,6 +1041,20 @@ def dec2ddm(dec):
 
 # Functions converting from Hewlett-Packard (HP) format to other formats
 
+def _hp_decimals(hp):
+    """
+    Decimal rendering of the magnitude of an HP value, split at the point
+    :param hp: HP Notation (DDD.MMSSSS)
+    :type hp: float
+    :return: ['DDD', 'MMSSsssssssss']
+    :rtype: list
+    """
+    # a double resolves 13 decimals (1e-9 arc-seconds) below 512 only;
+    # from 512 up the 13th decimal is binary noise (719.06 -> 719.0599999999999)
+    places = 13 if abs(hp) < 512 else 12
+    return f'{abs(hp):.{places}f}'.split('.')
+
+
 def hp2dec(hp):
     """
     Converts HP Notation to Decimal Degrees
@@ -1051,7 +1065,7 @@ def hp2dec(hp):
     """
     # Check if 1st and 3rd decimal place greater than 5 (invalid HP Notation)
     hp = float(hp)
-    hp_deg_str, hp_mmss_str = f'{hp:.13f}'.split('.')
+    hp_deg_str, hp_mmss_str = _hp_decimals(hp)
     if int(hp_mmss_str[0]) > 5:
         raise ValueError(f'Invalid HP Notation: 1st decimal place greater '
                          f'than 5: {hp}')
